@@ -808,11 +808,10 @@ def judge(world, label, o, outputs, exempt, snap_before, snap_after, mods_before
                 continue
             bad = scan_code(code)
             if bad:
-                kinds = sorted(set(b[0] for b in bad))
                 add("G3", "input-derived code executed at %s: file %s, names %s, forbidden %s" % (
                     site or _short_origin(world, ev.get("origin")), _short_origin(world, fn), list(code.co_names)[:8],
                     sorted(set("%s:%s" % b for b in bad))[:6]),
-                    what="exec_" + "+".join(kinds), site=site, where=_where(world, fn))
+                    what="exec_input_derived_code", site=site, where=_where(world, fn))
         elif kind == "compile":
             if (site or "").startswith("cdd/shared/defaults_utils.py:") and ev.get("path") == "<unknown>":
                 obs["literal_eval_default"] += 1
@@ -901,7 +900,8 @@ def warm_up():
     try:
         w.write_files({k: concrete(t, w) for k, t in render_files(WARM_SPEC).items()})
         for what in PURE_KINDS:
-            for style in STYLES:
+            for style in (STYLES if what in ("parse_docstring", "parse_docstring_raw", "docstring_roundtrip", "emit")
+                          else STYLES[:1]):
                 base = {"k": "pure", "what": what, "style": style, "emit_style": style, "variant": 1, "word_wrap": True}
                 variants = [base]
                 if what in ("emit", "parse_emit"):
@@ -929,6 +929,19 @@ def warm_up():
     finally:
         w.destroy()
     _warm[0] = True
+
+
+def _world_digest(world, snap):
+    """Digest of the tree with the (pid-dependent) world root spelt symbolically: absolute paths never enter a digest."""
+    out = []
+    for rel in sorted(snap):
+        ent = snap[rel]
+        if ent[0] == "f":
+            text = world.read(rel) or ""
+            out.append((rel, "f", digest_of(text.replace(world.root, "{ROOT}")), ent[3]))
+        else:
+            out.append((rel, ent[0], ent[2] if ent[0] == "l" else "", ent[3]))
+    return digest_of(out)
 
 
 def _resolve_fault(world, f, reh):
@@ -1030,8 +1043,11 @@ def simulate(plan):
                         continue
                 mods_before = set(m for m in PAYLOAD_MODULES if m in sys.modules)
                 snap_before = world.snapshot()
-                o = ops.invoke(world, iop, call=call, monitor=True, trace=(len(runs) > 1 and fi == 0 and f["seam"] == "line"),
-                               faults=[flt] if flt else None, budget=STEP_BUDGET, wall_s=60)
+                # the step seam (sys.settrace) is on only where it is needed: in the rehearsal of a line fault (to
+                # learn the extent) and in the run that carries the line fault
+                traced = len(runs) > 1 and fi == 0 and f["seam"] == "line"
+                o = ops.invoke(world, iop, call=call, monitor=True, trace=traced, faults=[flt] if flt else None,
+                               budget=STEP_BUDGET if traced else None, wall_s=60)
                 if fi == 0:
                     reh = o
                 snap_after = world.snapshot()
@@ -1082,9 +1098,9 @@ def simulate(plan):
                             torn.add(t)
                 history.append({"op": label, "fault": flt, "outcome": {"kind": o.kind, "exc": o.exc_type},
                                 "input_derived_exec": obs["exec_input_derived"], "writes": obs["writes"],
-                                "world": SimWorld.digest(snap_after),
+                                "world": _world_digest(world, snap_after),
                                 "violations": sorted(set("%s/%s" % (x["clause"], x["sig"].get("what")) for x in viols))})
-                stats["world_states"].append(SimWorld.digest(snap_after))
+                stats["world_states"].append(history[-1]["world"])
                 reset_sentinels(world)
     finally:
         reset_sentinels(world)
@@ -1099,13 +1115,13 @@ def simulate(plan):
 
 # ------------------------------------------------------------------------------ runner interface
 def plan(tier, seed, scale=1.0):
-    per = int({"quick": 70, "thorough": 1400}[tier] * scale)
+    per = int({"quick": 240, "thorough": 5000}[tier] * scale)
     return [{"seed": seed * 1000 + w, "n": max(per, 1), "tier": tier} for w in range(16)]
 
 
 def work(task):
     known = load_known(ID)
-    return explore(plans(), simulate, task["seed"], task["n"], known, batch=35 if task["tier"] == "quick" else 100,
+    return explore(plans(), simulate, task["seed"], task["n"], known, batch=task["n"] if task["tier"] == "quick" else 100,
                    max_classes=3, max_shrink_runs=150, max_shrink_s=25.0)
 
 
